@@ -42,27 +42,19 @@ Proof. exact sentinel_delivered. Qed.
 Print Assumptions C15_sentinel_delivered.
 
 (* ---- ineffective messages ---- *)
-(* one message of any ineffective class but the counter slot: state unchanged, nothing observable *)
-Theorem C15_inert_step_except : forall own async s it c,
-  classify own s it = Some c -> c <> BCallbackCounter ->
+(* one message of any of the twelve ineffective classes: state unchanged, nothing observable *)
+Theorem C15_inert_step : forall own async s it c,
+  classify own s it = Some c ->
   fst (step own async s it) = s /\ filter observable (snd (step own async s it)) = [].
 Proof. exact inert_step. Qed.
-Print Assumptions C15_inert_step_except.
+Print Assumptions C15_inert_step.
 
 (* process (pre ++ bad :: post) = process (pre ++ post) on manager state and observable effects *)
-Theorem C15_inert_except : forall own async s pre bad post c,
-  classify own (fst (run own async s pre)) bad = Some c -> c <> BCallbackCounter ->
+Theorem C15_inert : forall own async s pre bad post c,
+  classify own (fst (run own async s pre)) bad = Some c ->
   visible own async s (pre ++ bad :: post) = visible own async s (pre ++ post).
 Proof. exact inert_anywhere. Qed.
-Print Assumptions C15_inert_except.
-
-(* the excluded class is really not ineffective: {'method': 'callback', 'id': 0} for this host and
-   a sid that has callbacks deletes the id counter; a later emit with callback to that sid is lost *)
-Theorem C15_inert_refuted : exists own async s pre bad post,
-  classify own (fst (run own async s pre)) bad = Some BCallbackCounter /\
-  visible own async s (pre ++ bad :: post) <> visible own async s (pre ++ post).
-Proof. exact inert_counter_refuted. Qed.
-Print Assumptions C15_inert_refuted.
+Print Assumptions C15_inert.
 
 (* ---- a server never re-applies what it published itself ---- *)
 (* the five API messages carry host_id = own and are dropped by the echo filter (emit, disconnect and
@@ -130,7 +122,7 @@ Proof. exact chk_ignored_model. Qed.
 Print Assumptions C15_chk_ignored_model.
 
 Theorem C15_chk_inert_model : forall own async s items,
-  tags_justified own async s items = true -> has_counter_class own async s items = false ->
+  tags_justified own async s items = true ->
   let A := run own async s (map snd items) in
   let B := run own async s (map snd (filter (fun p => negb (is_bad (fst p))) items)) in
   chk_inert items (snd A) (snd B) (fst A) (fst B) = true.
